@@ -368,11 +368,16 @@ func Driver(root string, p *Prop, tier string, seed int64) int {
 	if len(unknown) > 0 {
 		os.MkdirAll(filepath.Join(root, "replays", p.ID), 0o755)
 		shown := map[string]int{}
+		lines := 0
 		for _, v := range unknown {
+			if lines >= 12 {
+				break
+			}
 			if shown[v.Signature+"|"+v.Kind] >= 2 || len(shown) > 40 {
 				continue
 			}
 			shown[v.Signature+"|"+v.Kind]++
+			lines++
 			b, _ := json.MarshalIndent(v, "", " ")
 			sum := sha256.Sum256(b)
 			path := filepath.Join(root, "replays", p.ID, hex.EncodeToString(sum[:6])+".json")
